@@ -93,6 +93,27 @@ def opsRefs (op : String) (j : Json) : Option (Except String Json) :=
       pure (Json.arr (texts.map fun t =>
         Json.mkObj [("refs", Json.arr ((findRefs (t.length + 1) t).map fun (ls, n) => Json.arr #[Json.bool ls, jstr n]).toArray),
                     ("closed", Json.bool (refsClosed (t.length + 1) t))]).toArray)
+  | "refs.insert" => some do
+      -- `Survey.insert_xpaths(text, context, use_current, reference_parent)` from the cell text alone
+      let tree ← elOfJson (← j.getObjVal? "tree")
+      let els := tree.chains []
+      let items ← getArr j "items"
+      let out ← items.toList.mapM fun q => do
+        let text ← getStr q "text"
+        let ctx : Option Chain ← match q.getObjVal? "ctx" with
+          | .ok (.str s) => match findByXpath els s.toList with
+            | some c => pure (some c)
+            | none => throw s!"no element at {s}"
+          | _ => pure none
+        let uc := getBoolD q "uc" false
+        let rp := getBoolD q "rp" false
+        pure (match insertXpathsText els ctx uc rp text with
+          | some t => Json.mkObj [("out", "ok"), ("text", jstr t)]
+          | none => match firstFailure els ctx uc rp text (text.length + 1) text with
+            | .unknown n => Json.mkObj [("out", "unknown"), ("name", jstr n)]
+            | .ambiguous n => Json.mkObj [("out", "ambiguous"), ("name", jstr n)]
+            | _ => Json.mkObj [("out", "unsupported")])
+      pure (Json.arr out.toArray)
   | "refs.valid" => some do
       -- is the hypothesis `Valid` of `relative_when_enclosed` met by this tree?
       let tree ← elOfJson (← j.getObjVal? "tree")
